@@ -124,11 +124,88 @@ def owner(md, sub, n):
     return '?'
 
 
+OTHER = b'To: other@example.com\nSubject: another party\n\nOTHER-PARTY-0002\n'
+
+
+def collision_stage(ck, rng, stats, quick):
+    """Another party delivers ITS OWN message into P1's destination under exactly the name P1 is going to use (same
+    second, pid and host name - two PID namespaces or NFS clients -, same counter), following the maildir protocol
+    (exclusive creation, next counter when the name is taken), at every call boundary of P1.  Neither message may be
+    replaced, lost or truncated."""
+    for p1 in ('move', 'movex'):
+        rnd = rng.randrange(0, 1000)
+        count0 = rnd % 128
+        base = None
+        ks = None
+        k = 0
+        while True:
+            k += 1
+            if ks is not None and k > ks:
+                break
+            sb = mdrun.Sandbox()
+            src = sb.maildir('src'); A = sb.maildir('A')
+            sb.add(src, 'new', ORIG, name=NAME, mtime=1500000000)
+            c1 = sb.write_conf(('maildir "%s" {\n\tmatch header "Subject" /message/ move "%s"\n}\n' % (src, A)).encode(), name='p1.conf')
+            other = os.path.join(sb.root, 'other.msg')
+            with open(other, 'wb') as f:
+                f.write(OTHER)
+            script = os.path.join(sb.root, 'p2.sh'); stf = os.path.join(sb.root, 'p2.status')
+            with open(script, 'w') as f:
+                f.write('#!/bin/sh\nfor c in %s; do\n n="%s/new/%d.%d_$c.%s:2,"\n if ( set -C; : > "$n" ) 2>/dev/null; then cat "%s" > "$n"; echo 0 > %s; exit 0; fi\ndone\necho 1 > %s\n' % (
+                    ' '.join(str(count0 + 1 + j) for j in range(6)), A, iorun.PIN['VFIO_TIME'] and 1700000000, 4242, 'pinned', other, stf, stf))
+            os.chmod(script, 0o755)
+            log = os.path.join(sb.root, 'p1.log')
+            env = dict(iorun.PIN)
+            env.update({'VFIO_LOG': log, 'VFIO_ROOT': sb.root, 'VFIO_RANDOM': str(rnd)})
+            if p1 == 'movex':
+                env['VFIO_XDEV'] = '1'
+            if ks is not None:
+                env['VFIO_PLAN'] = '%d:run=%s' % (k, script)
+            rc1, out, err1 = sb.run([], conf=c1, env=env, preload=SHIM, timeout=60)
+            trace = open(log, errors='replace').read().splitlines() if os.path.exists(log) else []
+            if ks is None:
+                ks = len(iorun.parse_trace(trace))
+                base = trace
+                k = 0
+                sb.cleanup()
+                continue
+            stats['runs'] += 1; stats['collision'] = stats.get('collision', 0) + 1
+            st2 = open(stf).read().strip() if os.path.exists(stf) else None
+            files = survey(sb)
+            rep = {'stage': 'collision', 'p1': p1, 'boundary': k, 'random': rnd, 'p1_exit': rc1, 'p2_exit': st2,
+                   'files': [(md, sub, nm, len(b)) for md, sub, nm, b in files], 'p1_stderr': err1[-300:].decode(errors='replace'),
+                   'p1_call_at_boundary': base[k - 1] if k - 1 < len(base) else None}
+            if st2 is not None:
+                mine = [f for f in files if intact(f[3])]
+                theirs = [f for f in files if f[3] == OTHER]
+                rest = [(f[0], f[1], f[2], len(f[3])) for f in files if not intact(f[3]) and f[3] != OTHER]
+                why = None
+                if st2 == '0' and len(theirs) != 1:
+                    why = "the other party's message exists %d times after it was delivered under the name P1 uses" % len(theirs)
+                elif len(mine) != 1:
+                    why = "P1's message exists %d times" % len(mine)
+                elif rest:
+                    why = 'empty / partial file(s) left behind: %r' % rest
+                elif rc1 == 0 and mine[0][0] != 'A':
+                    why = 'P1 reports success but its message is in %s' % mine[0][0]
+                if why:
+                    stats['viol'] += 1
+                    if stats['viol'] <= 4:
+                        ck.violation('name collision: P1 = mdsort %s, the other party delivers under the same name before call %d of P1 (%s): %s' % (
+                            p1, k, rep['p1_call_at_boundary'], why), rep)
+                else:
+                    stats['nontrivial'] += 1
+            sb.cleanup()
+            if stats['viol'] > 3:
+                return
+
+
 def run(ck):
     rng = ck.rng
     q = ck.tier == 'quick'
     model = common.model_exe()
     stats = dict(runs=0, nontrivial=0, model_checked=0, known=0, viol=0)
+    collision_stage(ck, rng, stats, q)
     samples = []
     pairs = [(a, b) for a in P1_KINDS for b in P2_KINDS]
     # model outcomes per pair of model kinds
@@ -312,4 +389,13 @@ def three_parties(ck, rng, stats, n):
 
 def replay(ck, rp):
     print(rp)
+    if rp.get('stage') == 'collision':
+        import random, collections
+        stats = collections.defaultdict(int)
+
+        class R(random.Random):
+            def randrange(self, *a, **k):
+                return rp['random']
+        collision_stage(ck, R(), stats, True)
+        return 1 if ck.violations else 0
     return 1
